@@ -46,7 +46,7 @@ CHECKS = {
 }
 
 CHECKS.update({
- "C02": C("Coq proof: partition-independence theorems (tree reductions for every partitioning and split_every, shuffle co-location, repartition/alignment plans) + exhaustive enumeration of ALL 2^(n-1) cuts of the input (known/unknown divisions, empty partitions, independent cuts of both inputs) vs pandas; regression corpus D45, D49-D51",
+ "C02": C("Coq proof: partition-independence theorems (tree reductions for every partitioning and split_every, shuffle co-location, repartition plans, alignment of differently partitioned operands: Align.v, partition-wise = global for index-local operations) + exhaustive enumeration of ALL 2^(n-1) cuts of the input (known/unknown divisions, empty partitions, independent cuts of both inputs) vs pandas; regression corpus D45, D49-D51",
           "Theorems are universally quantified over the list of partitions (any count, boundaries, empty ones). On the real system ~40 single-input and 13 two-input operator families are computed for every cut of a 6-row (resp. 5x4-row) table, with known and unknown divisions and with empty partitions, and compared with pandas on the concatenated input; explicit refusals (ValueError about divisions) are accepted, silent differences are not. Partial: families whose partition logic is pandas code are covered by the sweep only.",
           "pandas is the oracle.", "DESIGN.md section 6 C02"),
  "C08": C("Coq proof: name_collision_iff (given a collision-free fixed-width token) + reflective obligation heads_unambiguous over the class table regenerated from the source on every run; observation across interpreters / hash seeds / construction orders; task keys compared across catalogue queries; single-parameter variants of parquet reads and unsorted / array / map sources in the catalogue; regression corpus D79",
